@@ -152,7 +152,7 @@ def run(pid, tier, replay=None):
     rnd = random.Random(vlib.seed() * 101 + int(pid[1:]))
     binary = vlib.build_harness()
     scheds = SCHEDULES_QUICK if tier == "quick" else SCHEDULES_THOROUGH
-    n = {"C05": 150, "C09": 120, "C20": 60}[pid] if tier == "quick" else {"C05": 5000, "C09": 4000, "C20": 1500}[pid]
+    n = {"C05": 400, "C09": 120, "C20": 100}[pid] if tier == "quick" else {"C05": 5000, "C09": 4000, "C20": 1500}[pid]
     if pid == "C09":
         progs = [(f"str{i}", string_program(rnd)) for i in range(n)] + [(f"late{i}", late_name_program(rnd)) for i in range(n // 4)]
     else:
@@ -167,7 +167,7 @@ def run(pid, tier, replay=None):
             rec["src"] = rec["files"]["main.lay"]
         else:
             rec = lang.case_record(cid, ast)
-            rec["src"] = lang.to_source(ast)[0]
+            rec["src"], rec["lines"] = lang.to_source(ast)
             rec["files"] = {"main.lay": rec["src"]}
         rec["ast"] = ast
         cases.append(rec)
@@ -193,7 +193,9 @@ def run(pid, tier, replay=None):
             if p["st"].startswith("skip") or p["st"].startswith("model-error"):
                 continue
             judged += 1
-            diff = langrun.compare(p, r)
+            p2 = dict(p)
+            p2["out"] = langrun.resolve_backtraces(p["out"], c.get("lines", {}))      # printed back traces name lines
+            diff = langrun.compare(p2, r)
             if diff:
                 v.violation(f"{c['id']} under schedule {sname}: {diff}"[:500],
                             {"id": c["id"], "schedule": sched, "source": c["src"], "predicted": {"out": p["out"], "st": p["st"]},
